@@ -240,7 +240,7 @@ func c08Lint(root string, files map[string]string) ([]string, error) {
 func TestVerifC08(t *testing.T) {
 	r := vNewReport("C08")
 	defer r.Write(t)
-	r.Extra["rule"] = "project seed (workflow + local action + reusable workflow) with every name kind marked at its definitions and uses (contexts, properties, functions, step/job ids incl. needs lists, input/secret/output/matrix/env/with keys, action and reusable-workflow interfaces, fromJSON keys, ['name'] indices); clean and noisy variant; every single occurrence re-cased UPPER and Capitalised, every pair re-cased together; oracle: multiset of (file, line, column, kind, lower-cased message) unchanged. class = (variant, kinds of the re-cased occurrences); non-trivial = all"
+	r.Extra["rule"] = "project seed (workflow + local action + reusable workflow) with every name kind marked at its definitions and uses (contexts, properties, functions, step/job ids incl. needs lists, input/secret/output/matrix/env/with keys, action and reusable-workflow interfaces, fromJSON keys, ['name'] indices); clean and noisy variant; every single occurrence re-cased UPPER and Capitalised, every pair re-cased together (thorough: every subset of the occurrences of one name, first 12 occurrences for names that occur more often); oracle: multiset of (file, line, column, kind, lower-cased message) unchanged. class = (variant, kinds of the re-cased occurrences); non-trivial = all"
 	r.Extra["assumptions"] = []string{"keywords true/false/null and string literal values are never re-cased", "string literals in index position are names (DESIGN section 7)"}
 	root := vTempDir(t, "c08-")
 
@@ -372,6 +372,47 @@ func TestVerifC08(t *testing.T) {
 				}
 				check([]int{i, j}, 0)
 			}
+		}
+		if vThorough() {
+			// every subset (of size >= 3) of the occurrences of one name, in both spellings:
+			// definitions and uses of a name are the occurrences that have to agree
+			groups := map[string][]int{}
+			for i, o := range occs {
+				if !badSingle[i] {
+					groups[strings.ToLower(o.text)] = append(groups[strings.ToLower(o.text)], i)
+				}
+			}
+			maxGroup := 0
+			for _, name := range vSortedKeys(groups) {
+				g := groups[name]
+				if len(g) > maxGroup {
+					maxGroup = len(g)
+				}
+				if len(g) < 3 {
+					continue
+				}
+				if len(g) > 12 {
+					g = g[:12] // names that occur very often (context names): their first 12 occurrences
+				}
+				for mask := 1; mask < 1<<len(g); mask++ {
+					var sel []int
+					for b := range g {
+						if mask&(1<<b) != 0 {
+							sel = append(sel, g[b])
+						}
+					}
+					if len(sel) < 3 {
+						continue
+					}
+					if r.Expired() {
+						return
+					}
+					check(sel, 0)
+					check(sel, 1)
+				}
+			}
+			r.Bounds["largest_group_of_occurrences_of_one_name"] = maxGroup
+			r.Bounds["subsets_per_name_capped_at_occurrences"] = 12
 		}
 	}
 }
